@@ -116,6 +116,15 @@ Definition num_binop (o : bop) (x y : Z) : res Z :=
   | Imp => Ok (Z.lor (Z.lnot x) y)
   end.
 
+(* single-precision + and - with an operand of magnitude 2^24 are left out of the exact domain: the sum may
+   fall into the binade below, where pcbasic's Single addition is one unit off (-1 + 16777216! gives 16777216;
+   float arithmetic is C04/C05's subject, not this property's) *)
+Definition sng_edge (o : bop) (t : ty) (x y : Z) : bool :=
+  match o, t with
+  | Add, TSng | Sub, TSng => (Z.abs x =? 16777216) || (Z.abs y =? 16777216)
+  | _, _ => false
+  end.
+
 (* the integer operators convert their left operand before they look at the right one, so an Overflow of
    the left operand comes before a Type mismatch of the right one:  100000! AND "A"  is an Overflow *)
 Definition left_conv (o : bop) (a : val) : res unit :=
@@ -128,7 +137,7 @@ Definition v_binop (dm : bool) (o : bop) (a b : val) : res val :=
   | VNum _ x, VNum _ y =>
       if integer_op o
       then do x' <- int_arg x; do y' <- int_arg y; do r <- num_binop o x' y'; num t r
-      else do r <- num_binop o x y; num t r
+      else do r <- num_binop o x y; if sng_edge o t x y then out_of_domain else num t r
   | VStr s1, VStr s2 =>
       if relational o then Ok (VNum t (b2i (rel o (str_eq s1 s2) (str_gt s1 s2) (str_gt s2 s1))))
       else if (zlen s1 + zlen s2) <=? 255 then Ok (VStr (s1 ++ s2)) else out_of_domain
@@ -164,3 +173,39 @@ Definition vN (t x : Z) : expr val :=
 Definition vS (s : list Z) : expr val := Leaf (Ok (VStr s)).
 Definition v_pr (ge le ne : bool) (e : expr val) : list (token val) :=
   pr val gen_utok gen_bspell (alt3 ge le ne) e.
+
+(* ---- type-conversion functions applied to a value (a function call is a unit of the expression):
+   1 CINT 2 CSNG 3 CDBL 4 ABS 5 SGN 6 INT 7 FIX, on the exact domain *)
+Definition v_fn (f : Z) (a : val) : res val :=
+  match a with
+  | VStr s => if (f =? 4) || (f =? 6) then Ok a else Err tmm        (* ABS and INT pass a string unchanged *)
+  | VNum t x =>
+      if f =? 1 then do x' <- int_arg x; num TInt x'
+      else if f =? 2 then num TSng x
+      else if f =? 3 then num TDbl x
+      else if f =? 4 then num (to_float t) (Z.abs x)
+      else if f =? 5 then num TInt (Z.sgn x)
+      else if (f =? 6) || (f =? 7) then Ok a
+      else out_of_domain
+  end.
+(* the unit `FN( arg )` : the argument is evaluated by a nested parse when the unit is read *)
+Definition vF (f : Z) (arg : expr val) : expr val :=
+  Leaf (bind (eval val v_unop (v_binop false) arg) (v_fn f)).
+
+(* ---- variables: an expression over a store; every occurrence of a variable reads the same store, and the
+   operator functions are functions of the operand VALUES (they cannot write to a variable) *)
+Definition store := Z -> val.
+Inductive xexpr :=
+| XVar (x : Z)
+| XLit (v : val)
+| XPar (e : xexpr)
+| XUn (o : uop) (e : xexpr)
+| XBin (o : bop) (l r : xexpr).
+Fixpoint inst (s : store) (e : xexpr) : expr val :=
+  match e with
+  | XVar x => Leaf (Ok (s x))
+  | XLit v => Leaf (Ok v)
+  | XPar e1 => Par (inst s e1)
+  | XUn o e1 => Un o (inst s e1)
+  | XBin o l r => Bin o (inst s l) (inst s r)
+  end.
